@@ -12,18 +12,16 @@ def run(tier):
     to = 900 if q else 3000
     conds = [
         Cond("h_isolation.py", "no_leak", to, twin="reach", path_timeout=to / 2, env={"H_GENS": "1"}),
-        Cond("h_isolation.py", "no_leak", to, twin="reach", path_timeout=to / 2, env={"H_GENS": "2" if q else "3", "H_SETS": "small"}),
+        Cond("h_isolation.py", "no_leak", to, twin="reach", path_timeout=to / 2, env={"H_GENS": "2", "H_SETS": "small"}),
         Cond("h_isolation.py", "parse_isolation", to, twin="reach_parse", path_timeout=to / 2, env={"H_SEQ": "3" if q else "4"}),
     ]
-    if not q:
-        conds.append(Cond("h_isolation.py", "no_leak", to, path_timeout=to / 2, env={"H_GENS": "2"}))
     run.run_conditions(conds, conformance_harnesses=["h_isolation.py"])
     run.encoded = ["Fandango.generate (try/finally around the run)", "the adaptive block at the end of _generate_simple (extracted from the current source by line markers)",
                    "AdaptiveTuner.update_parameters/reset_parameters", "Grammar.set_max_repetition/get_max_repetition", "Repetition.max",
                    "IterativeParser._process (rule table of instance B)", "Grammar.parse_forest on two spec objects (regex vs literal terminal with the same text)"]
     run.extra["source_sha256_16"] = source_fingerprint(FILES)
     run.bounds = {"adaptive step": "previous/current best fitness and diversity from finite sets around the tuner's thresholds (0.5 % improvement, 0.1 diversity); "
-                  "1 generation with the full sets, 2 (3) generations with reduced sets; run exhausted or abandoned after the first solution and closed",
+                  "1 generation with the full sets, 2 generations with reduced sets; run exhausted or abandoned after the first solution and closed",
                   "parse isolation": "symbolic sequences of <= 3 (4) parse requests over 2 spec objects x 3 words"}
     run.outside = ["the surrounding selection/crossover/mutation code of a generation (does not touch process-wide state; not executed)",
                    "interleaving two runs generation by generation (the cap is process-wide by design while a run is active)",
